@@ -6,15 +6,15 @@ Open Scope Z_scope.
    next token is skipped, in both lexer states; the tokens that follow are the
    same, at offsets moved by exactly the number of bytes inserted *)
 Theorem C08_whitespace : forall alnum ws, Forall (fun b => is_ws b = true) ws ->
-  forall f st s off, lex_from alnum (length ws + f) st (ws ++ s) off = lex_from alnum f st s (off + length ws)%nat.
+  forall f st s off, lex_from alnum (length ws + f) st (ws ++ s) off = lex_from alnum f st s (off + Z.of_nat (length ws)).
 Proof. exact lex_skip_whitespace. Qed.
 Print Assumptions C08_whitespace.
 
 (* positions are recomputed from the offset alone: line = 1 + line feeds before
    the token, column = 1 + characters since the last line feed *)
 Theorem C08_positions : forall input off,
-  linecol input off = (1 + Z.of_nat (count_lf (firstn off input)),
-                       1 + Z.of_nat (length (runes (last_line (firstn off input) [])))).
+  linecol input off = (1 + Z.of_nat (count_lf (firstn (Z.to_nat off) input)),
+                       1 + Z.of_nat (length (runes (last_line (firstn (Z.to_nat off) input) [])))).
 Proof. reflexivity. Qed.
 Print Assumptions C08_positions.
 
